@@ -2,12 +2,15 @@
 Tie: H lock-step with the error channel as a second output; exhaustive failing subsets for short inputs."""
 import itertools, json
 import vlib, lockstep as ls
+from checks import C07_openin as OI
 
 STAGES = ["Map", "FMap"]
 
 
-def mk(rng, st, mode, cap, xs, fail, order):
+def mk(rng, st, mode, cap, xs, fail, order, ek=None):
     cfg = "stage=%s mode=%s cap=%d fail=%s" % (st, mode, cap, ",".join(map(str, fail)))
+    if ek:
+        cfg += " ek=" + ek      # kind of the error returned by the failing elements (C07_openin.ERROR_KINDS)
     total = sum(len(ls.g_fmap(x)) if st == "FMap" else 1 for x in xs) + len(xs)
     sends = ["s%d" % x for x in xs] + ["c0"]
     if order == "values-first":
@@ -29,7 +32,7 @@ def gen(rng, n, maxlen):
         k = rng.randrange(0, maxlen + 1)
         xs = rng.sample(range(1, 40), k)
         fail = [x for x in xs if rng.random() < 0.35]
-        out.append(mk(rng, st, mode, rng.choice([0, 1, 1, 3]), xs, fail, rng.choice(["values-first", "errors-first", "mixed"])))
+        out.append(mk(rng, st, mode, rng.choice([0, 1, 1, 3]), xs, fail, rng.choice(["values-first", "errors-first", "mixed"]), ek=OI.pick_kind(rng)))
     return out
 
 
@@ -47,6 +50,23 @@ def exhaustive(rng, maxn):
     return out
 
 
+def exhaustive_kinds(rng, maxn):
+    """every subset of failing positions for inputs up to maxn elements, the failing elements returning errors that
+    wrap context.Canceled / context.DeadlineExceeded (the pipeline context stays alive)"""
+    out = []
+    for ek in OI.ERROR_KINDS[:2]:
+        for st in STAGES:
+            for mode in ("lift", "try"):
+                for cap in (0, 1, 3):
+                    for n in range(1, maxn + 1):
+                        xs = [4, 5, 7, 8, 10][:n]
+                        for mask in itertools.product([0, 1], repeat=n):
+                            fail = [x for x, m in zip(xs, mask) if m]
+                            if fail:
+                                out.append(mk(rng, st, mode, cap, xs, fail, rng.choice(["values-first", "errors-first"]), ek=ek))
+    return out
+
+
 def mk_stderr(rng, cap, xs, fail):
     """Map under Try wired through pipe.StdErr: the error channel is read by the library's own reader"""
     cfg = "stage=StdErrMap mode=try cap=%d fail=%s" % (cap, ",".join(map(str, fail)))
@@ -60,7 +80,7 @@ def gen_stderr(rng, n, maxlen):
     for _ in range(n):
         k = rng.randrange(1, maxlen + 1)
         xs = rng.sample(range(1, 40), k)
-        out.append(mk_stderr(rng, rng.choice([0, 0, 1, 2]), xs, [x for x in xs if rng.random() < 0.6]))
+        out.append(OI.with_kind(mk_stderr(rng, rng.choice([0, 0, 1, 2]), xs, [x for x in xs if rng.random() < 0.6]), OI.pick_kind(rng)))
     return out
 
 
@@ -116,17 +136,33 @@ def evaluate(script, tr):
     elif 0 in tr.closed_in:
         vs.append(vlib.Violation("impl", "%s/%s with failing %s: channels not both closed after the input ended and both outputs were drained (blocked forever?)" % (st, mode, sorted(fail)),
                                  case=script, got=[tr.recv.get(0), tr.recv.get(1), sorted(tr.closed)], key=key))
+    # fail-fast: from the first failure on nothing further is consumed, both channels are closed, the goroutine is gone —
+    # whether or not the input has been closed (checks/C07_openin.py)
+    vs += OI.after_failure(script, tr)
     if vals[:len(want_v)] != vals and vals != want_v[:len(vals)]:
         vs.append(vlib.Violation("impl", "%s/%s: values %s are not a prefix of %s" % (st, mode, vals, want_v), case=script, key=key))
+    # a census counts once both channels have been seen closed (scripts of C07_openin take one earlier as well)
+    seen, closed_pos = set(), None
+    for pos, (mv, res, _) in enumerate(tr.steps):
+        if mv[0] == "r" and res == "closed":
+            seen.add(mv)
+            if closed_pos is None and {"r0", "r1"} <= seen:
+                closed_pos = pos
     for pos, n in tr.census:
-        if done and n != 0:
+        if done and closed_pos is not None and pos > closed_pos and n != 0:
             vs.append(vlib.Violation("impl", "%s/%s: %d goroutine(s) alive after both channels closed" % (st, mode, n), case=script, key=key))
     return vs
 
 
 def run(ctx):
     ctx.cov["rule"] = ("script = Map/FMap under Lift/Try (LiftF/TryF) with a set of failing elements, capacities 0/1/3, sends+close interleaved with receives on the "
-                       "value and the error channel in both orders, final drain; exhaustive failing subsets for inputs up to 4 (thorough: 5); non-trivial = at least one send and one failing element")
+                       "value and the error channel in both orders, final drain; exhaustive failing subsets for inputs up to 3 (thorough: 5); non-trivial = at least one send and one failing element. "
+                       "Error kinds (distribution `error_kind`): besides plain errors, failing elements return errors wrapping context.Canceled / context.DeadlineExceeded "
+                       "(also two levels deep, and the Err() of a context private to the element) while the pipeline context is alive — exhaustive failing subsets for inputs up to 2 (thorough: 4) "
+                       "for the first two kinds, random for all; same tokens, so the model comparison runs on them unchanged. "
+                       "Input left open (distribution `input`=left-open): Lift/LiftF scripts whose input is never closed and whose sends continue after the failing element, "
+                       "every position of the failing element for inputs up to 3 (thorough: 5) plus random ones; direct oracle: from the first failure on nothing more is taken "
+                       "off the input, both channels are closed, census 0 (non-trivial = a send was attempted after the first failing element)")
     ctx.assumptions += ls.ASSUME
     ls.regen_stages(ctx, pipe=True, fork=False, sources=True, text=True)
     ctx.prove()
@@ -136,11 +172,20 @@ def run(ctx):
         scripts = [json.load(open(ctx.replay))["case"]]
     else:
         scripts = exhaustive(ctx.rng, 5 if ctx.thorough() else 3) + gen(ctx.rng, 3000 if ctx.thorough() else 300, 8)
+        scripts += exhaustive_kinds(ctx.rng, 4 if ctx.thorough() else 2)
+        # fail-fast with the input left open (checks/C07_openin.py); same harness, same model, same evaluator
+        scripts += OI.exhaustive(ctx.rng, 5 if ctx.thorough() else 3) + OI.gen(ctx.rng, 1500 if ctx.thorough() else 150, 6)
     trs = ls.judge(ctx, scripts, evaluate, record=False) if not (ctx.replay and "StdErrMap" in scripts[0]) else []
+    opened = [(s, tr) for s, tr in zip(scripts, trs) if "sched=openin" in s]
+    OI.record(ctx, [s for s, _ in opened], [tr for _, tr in opened])
     for s, tr in zip(scripts, trs):
+        if "sched=openin" in s:
+            continue
         if tr is not None:
             c = tr.cfg
             ctx.hist("mode", c["mode"])
+            ctx.hist("error_kind", c.get("ek", "plain"))
+            ctx.hist("input", "closed")
             nf = len([x for x in c.get("fail", "").split(",") if x])
             ctx.hist("failing", nf)
             ctx.count(s, nontrivial=bool(tr.sent.get(0)) and nf > 0)
@@ -149,6 +194,7 @@ def run(ctx):
         strs = ls.judge(ctx, sscripts, evaluate_stderr, record=False)
         for s2, tr in zip(sscripts, strs):
             if tr is not None:
+                ctx.hist("error_kind", tr.cfg.get("ek", "plain"))
                 ctx.count(s2, nontrivial=True)
     from checks import C07x
     C07x.run_extra(ctx)
